@@ -42,6 +42,16 @@ class LabeledUnicast(NLRI):
     SAFI = SAFNUM_MPLS_LABEL
 
     @classmethod
+    def construct_mpls_label_stack(cls, labels):
+        # unlike the EVPN encoding, label 0 (explicit null) is an ordinary label
+        # here: the last label always carries the bottom-of-stack bit, otherwise
+        # the decoder reads the prefix octets that follow as further labels
+        data = b''
+        for label in labels[:-1]:
+            data += struct.pack('!L', label << 4)[1:]
+        return data + struct.pack('!L', (labels[-1] << 4 | 1))[1:]
+
+    @classmethod
     def parse(cls, nlri_data, addpath=False):
         nlri_list = []
         while nlri_data:
